@@ -58,7 +58,8 @@ def cases(draw):
     opts['repeat'] = draw(st.sampled_from([1, 1, 2]))
     opts['shuffle'] = draw(st.one_of(st.none(), st.integers(0, 9999)))
     mode = draw(st.sampled_from(['j2', 'j3', 'j1-resume', 'resume']))
-    return {'spec': spec, 'opts': opts, 'mode': mode, 'verbose': draw(st.integers(0, 2))}
+    return {'spec': spec, 'opts': opts, 'mode': mode, 'verbose': draw(st.integers(0, 2)),
+            'relpath': draw(st.sampled_from([False, False, True]))}
 
 
 def pkg_args(spec, opts):
@@ -218,9 +219,37 @@ class Modes(Part):
                     if norm_listed.get(ln) != first and sorted(norm_listed.get(ln) or []) == sorted(first):
                         viol.append(('C03/list-order-differs-from-run/' + mode, 'layer %s: listed %s, executed %s in the '
                                      '%s run' % (ln, norm_listed.get(ln), first, mode)))
+        relrun = False
+        if case.get('relpath') and 'resume' in mode:
+            # the runner is started from the command line with a *relative* search path, and tests of the layer that
+            # cannot be torn down change the working directory: the layers resumed in subprocesses must still find and run
+            # their tests
+            relrun = True
+            spec3 = common.with_prefix(copy.deepcopy(base))
+            w3 = traceana.World(spec3)
+            for i, L in enumerate(spec3['layers']):
+                if w3.has(i, 'tearDown'):
+                    L.setdefault('faults', {})['tearDown'] = 'NIE'
+            for node, t in gen.iter_tests(spec3):
+                t.setdefault('acts', {}).setdefault('body', []).append(['chdir', '/'])
+            want3 = expected(spec3, opts)
+            with drive.World(spec3) as W:
+                from .. import runtime
+                run_r = W.run(['--path', 'src', '--tests-pattern', '^%st_' % spec3['mp']]
+                              + runtime.package_path_args(spec3, 'src') + common.args_of(o2) + pkg_args(spec3, opts),
+                              cwd=W.dir, base_args=False)
+            if run_r.timeout or run_r.exit not in (0, 1):
+                viol.append(('C03/run-aborted/relative-path-resume', 'exit status %s: %s' % (run_r.exit, run_r.err[-300:])))
+            else:
+                run_r.exc = None
+                check_run('relative-path-' + mode, spec3, w3, run_r, want3, repeat, viol)
         total = sum(1 for _ in gen.iter_tests(base))
         nsel = sum(len(v) for v in want.values())
         labels = [mode]
+        if relrun:
+            labels.append('relative-path+chdir')
+            if len(traceana.by_pid(run_r.trace)) > 1:
+                labels.append('relative-path+chdir:children')
         if base.get('package_paths'):
             labels.append('package-path')
         if opts.get('package'):
